@@ -232,11 +232,14 @@ class Engine(
         """  # noqa: D401
         match operation:
             case Calculation(tag=tag):
-                if select.is_compound:
+                if select.is_compound or tag in select.skip_to.columns:
                     # This Select wraps a Chain operation in order to represent
                     # a SQL UNION or UNION ALL, and we trust the user's intent
                     # in putting those upstream of this operation, so we also
-                    # add a nested subquery here.
+                    # add a nested subquery here.  We do the same when the new
+                    # column has the tag of a column this Select's projection
+                    # hides, since operations in this Select (e.g. its sort)
+                    # may still refer to the hidden one.
                     return Select.apply_skip(operation._finish_apply(select))
                 elif select.has_projection:
                     return select.reapply_skip(
